@@ -240,7 +240,11 @@ func (c *checkCtx) noObservation(what string) {
 // abortRun ends the whole run now (used when a watchdog fired and stuck goroutines cannot be reclaimed).
 func (c *checkCtx) abortRun() {
 	c.wall = time.Since(c.start).Seconds()
-	os.Exit(c.finish())
+	code := c.finish()
+	if m := os.Getenv("VERIF_DONE_MARKER"); m != "" {
+		_ = os.WriteFile(m, []byte(fmt.Sprint(code)), 0o644)
+	}
+	os.Exit(code)
 }
 
 func (c *checkCtx) finish() int {
